@@ -156,7 +156,36 @@ def op_preprocess(req):
         shutil.rmtree(d, ignore_errors=True)
 
 
-OPS = {"pipeline": op_pipeline, "preprocess": op_preprocess}
+def op_revise_unit(req):
+    """The recursion of ReviseAnno on ONE group given as rows (label, start, stop): the object is set up as
+    iterate_call_merge does (seed and search frame = the group sorted by Start, an empty output frame), call_merge() is
+    called, and the output rows are returned with their index labels, together with the order the sort produced."""
+    import logging
+    import pandas as pd
+    from transposon.revise_annotation import ReviseAnno
+    out = []
+    for rows in req["groups"]:
+        fr = pd.DataFrame({"Chromosome": "C", "Start": [float(r[1]) for r in rows], "Stop": [float(r[2]) for r in rows], "Strand": "+",
+                           "Order": "O", "SuperFamily": "S", "Length": [float(r[2] - r[1] + 1) for r in rows]}, index=[r[0] for r in rows])
+        ra = ReviseAnno.__new__(ReviseAnno)
+        ra.logger = logging.getLogger("vh")
+        ra.current_te_identity = "X"
+        ra.seed_frame = fr.copy(deep=True).sort_values(by=["Start"])
+        ra.search_frame = fr.copy(deep=True).sort_values(by=["Start"])
+        ra.seed_max_index = int(ra.seed_frame.index.values.max())
+        ra.chrom_specific_frame_dict = {"X": pd.DataFrame()}
+        sorted_rows = [[int(l), int(r_.Start), int(r_.Stop)] for l, r_ in ra.seed_frame.iterrows()]
+        try:
+            ra.call_merge()
+            res = ra.chrom_specific_frame_dict["X"]
+            out.append({"sorted": sorted_rows, "outcome": "ok", "rows": [[int(l), int(r_.Start), int(r_.Stop)] for l, r_ in res.iterrows()],
+                        "seed_left": len(ra.seed_frame), "search_left": len(ra.search_frame)})
+        except Exception as e:   # noqa
+            out.append({"sorted": sorted_rows, "outcome": "raised", "exc": "%s: %s" % (type(e).__name__, str(e)[:200])})
+    return {"ok": True, "results": out}
+
+
+OPS = {"pipeline": op_pipeline, "preprocess": op_preprocess, "revise.unit": op_revise_unit}
 
 
 def main():
